@@ -12,7 +12,7 @@ VARIABLE l
 TraceInit == l = 1
 Allowed(e) == \/ e.ev = "FlipBit" /\ e.res = "err"
               \/ e.ev = "Fresh" /\ e.distinct
-TraceNext == l <= Len(Trace) /\ Allowed(Trace[l]) /\ l' = l + 1
+TraceNext == l <= Len(Trace) /\ Allowed(Trace[l]) = TRUE /\ l' = l + 1
 TraceSpec == TraceInit /\ [][TraceNext]_l
 TraceAccepted ==
   LET d == TLCGet("stats").diameter IN
